@@ -1,6 +1,6 @@
 (* C16 property theorems: statements only, each closed by [exact]. *)
 From Boltons Require Import Lib.Prelude Lib.C16_Text Spec.C16_Spec Spec.C16_Re Model.C16_Model Gen.C16_Gen
-  Check.C16_Check Proofs.C16_ReEquiv Proofs.C16_Format Proofs.C16_Main Proofs.C16_Sound.
+  Check.C16_Check Proofs.C16_ReEquiv Proofs.C16_Trailing Proofs.C16_Format Proofs.C16_Main Proofs.C16_Sound.
 Open Scope N_scope.
 
 (* CPython's character classes, regenerated from the interpreter on every run, satisfy
@@ -76,6 +76,13 @@ Theorem C16_parse_real : forall C, cc_ok C -> forall T ms,
   src_consistent (t_frames T) = true -> from_string C (real_text T ms) = Ok T.
 Proof. exact parse_real_text. Qed.
 Print Assumptions C16_parse_real.
+
+(* ... and with the newline the interpreter ends its output with *)
+Theorem C16_parse_real_newline : forall C, cc_ok C -> forall T ms,
+  wf C T = true -> markers_ok ms = true -> length ms = length (t_frames T) ->
+  src_consistent (t_frames T) = true -> from_string C (real_text T ms ++ NL) = Ok T.
+Proof. exact parse_real_nl. Qed.
+Print Assumptions C16_parse_real_newline.
 
 Theorem C16_real_roundtrip : forall C, cc_ok C -> forall T ms,
   wf C T = true -> markers_ok ms = true -> length ms = length (t_frames T) ->
